@@ -74,6 +74,11 @@ def jobs(tier, seed):
     for x, y in pairs:
         for s in range(m):
             yield {"progs": [x, y], "mode": "coarse", "bound": b["coarse2"], "slice": [s, m]}
+    # hand-off: thread 0 computes a task object that was made by yet another thread; it must behave exactly like
+    # the same task made and computed on thread 0 alone (conv "av"), also next to a second computation
+    for x, y in pairs:
+        for s in range(m):
+            yield {"progs": [x, y], "mode": "coarse", "bound": b["coarse2"], "slice": [s, m], "handoff": True}
     for x, y in pairs:
         for s in range(m):
             yield {"progs": [x, y], "mode": "fine", "bound": b["fine2"], "slice": [s, m], "only": "pure"}
@@ -125,21 +130,21 @@ def _setup_globals():
     Wd.DBI_OWNER.clear()
 
 
-def _solo_digest(name):
+def _solo_digest(name, conv="call"):
     from .. import prog as P, threadx as T
-    d = _solo.get(name)
+    d = _solo.get((name, conv))
     if d is None:
         _setup_globals()
-        res, trace, err = T.run_concurrent([P.compile_prog(PROGRAMS[name])], (), [{}])
+        res, trace, err = T.run_concurrent([P.compile_prog(PROGRAMS[name])], (), [{"conv": conv}])
         assert err is None, err
-        res2, _, _ = T.run_concurrent([P.compile_prog(PROGRAMS[name])], (), [{}])
+        res2, _, _ = T.run_concurrent([P.compile_prog(PROGRAMS[name])], (), [{"conv": conv}])
         if res != res2:
             # two fresh threads running the same program ALONE, one after the other, see different things: the
             # second one observed state left behind by the first (per-thread state that is not per thread)
             keys = [k for k in res[0] if res2[0] is None or res[0][k] != res2[0].get(k)]
             raise SequentialLeak("program %s run alone on two successive fresh threads differs in %s: first %r, second %r"
                                  % (name, keys, res[0][keys[0]], res2[0][keys[0]]))
-        d = _solo[name] = res[0]
+        d = _solo[(name, conv)] = res[0]
     return d
 
 
@@ -153,8 +158,10 @@ def run(job, env):
         return out
     names = job["progs"]
     progs = [P.compile_prog(PROGRAMS[n]) for n in names]
+    handoff = bool(job.get("handoff"))
+    cfgs = [({"conv": "handoff"} if (handoff and i == 0) else {}) for i in range(len(names))]
     try:
-        solos = [_solo_digest(n) for n in names]
+        solos = [_solo_digest(n, "av" if (handoff and i == 0) else "call") for i, n in enumerate(names)]
     except SequentialLeak as e:
         _viol(out, "thread-state-leak", str(e), job, ())
         out["evals"] += 2
@@ -181,6 +188,8 @@ def run(job, env):
             _viol(out, sig, err, job, prefix)
             return
         for i, (res, solo) in enumerate(zip(results, solos)):
+            if handoff and i == 0:
+                res, solo = _no_ids(res), _no_ids(solo)
             if res != solo:
                 keys = [k for k in solo if res is None or res.get(k) != solo[k]]
                 k0 = keys[0]
@@ -191,11 +200,22 @@ def run(job, env):
                 break
 
     _setup_globals()
-    n, capped = T.explore_threads(progs, [{} for _ in progs], job["bound"], _wrap(on_exec), fine=fine, slice_=tuple(job["slice"]))
+    n, capped = T.explore_threads(progs, cfgs, job["bound"], _wrap(on_exec), fine=fine, slice_=tuple(job["slice"]))
     cnt["schedules_" + job["mode"]] = cnt.get("schedules_" + job["mode"], 0) + out["evals"]
     if len(out["samples"]) < 1 and job["slice"][0] == 0:
         out["samples"].append({"threads": names, "mode": job["mode"], "preemption_bound": job["bound"], "schedules_in_slice": out["evals"]})
     return out
+
+
+def _no_ids(d):
+    """profiler entry names start with the task's serial number, which counts the tasks made by the CREATING thread:
+    a task made elsewhere legitimately carries that thread's number, so for the hand-off thread names are compared
+    without the serial"""
+    if d is None or not d.get("prof"):
+        return d
+    d = dict(d)
+    d["prof"] = tuple(sorted(n.split(".", 1)[1] if n[:6].isdigit() and "." in n else n for n in d["prof"]))
+    return d
 
 
 def _wrap(f):
@@ -216,7 +236,7 @@ def _setup_globals_light():
 
 def _viol(out, sig, msg, job, prefix):
     if len(out["violations"]) < 5:
-        out["violations"].append({"sig": sig, "msg": msg, "features": ["mode:" + job["mode"]] + ["prog:" + n for n in job["progs"]],
+        out["violations"].append({"sig": sig, "msg": msg, "features": ["mode:" + job["mode"]] + (["handoff"] if job.get("handoff") else []) + ["prog:" + n for n in job["progs"]],
                                   "case": {"job": job, "prefix": list(prefix)}})
     out["counters"]["viol:" + sig] = out["counters"].get("viol:" + sig, 0) + 1
 
@@ -228,19 +248,23 @@ def replay(case, env):
     job = case["job"]
     names = job["progs"]
     progs = [P.compile_prog(PROGRAMS[n]) for n in names]
+    handoff = bool(job.get("handoff"))
+    cfgs = [({"conv": "handoff"} if (handoff and i == 0) else {}) for i in range(len(names))]
     try:
-        solos = [_solo_digest(n) for n in names]
+        solos = [_solo_digest(n, "av" if (handoff and i == 0) else "call") for i, n in enumerate(names)]
     except SequentialLeak as e:
         return [{"sig": "thread-state-leak", "msg": str(e)}]
     fine = _fine_spec(job["mode"])
     vs = []
     for rep in range(2):
         _setup_globals()
-        results, trace, err = T.run_concurrent(progs, tuple(case["prefix"]), [{} for _ in progs], fine=fine)
+        results, trace, err = T.run_concurrent(progs, tuple(case["prefix"]), cfgs, fine=fine)
         if err is not None:
             vs.append({"sig": "deadlock", "msg": err})
             break
         for i, (res, solo) in enumerate(zip(results, solos)):
+            if handoff and i == 0:
+                res, solo = _no_ids(res), _no_ids(solo)
             if res != solo:
                 vs.append({"sig": "thread-interference", "msg": "thread %d (%s) differs from its solo run in %s"
                            % (i, names[i], [k for k in solo if res.get(k) != solo[k]])})
@@ -249,4 +273,5 @@ def replay(case, env):
 
 
 def finish(acc, tier):
-    return {"bounds": dict(BOUNDS[tier], programs=NAMES, threads="2" if tier == "quick" else "2 and 3")}
+    return {"bounds": dict(BOUNDS[tier], programs=NAMES, threads="2" if tier == "quick" else "2 and 3",
+                           handoff="every pair again (coarse points) with thread 0 computing a task object made by a third, short-lived thread; reference: the same program made and computed on one thread alone")}
